@@ -189,6 +189,25 @@ pub fn run(ctx: &Ctx, replay: Option<&J>) -> i32 {
             Err(_) => "resolve-ambiguous",
         });
         ctx.nontrivial(&format!("resolve:{}", p));
+        // an identifier that does not resolve is an error of `convert` in every position, also when
+        // the same text is given on both sides
+        if expected.is_err() {
+            for (from, to) in [(p.as_str(), p.as_str()), (p.as_str(), "meter"), ("meter", p.as_str()), (p.as_str(), "celsius"), ("second", p.as_str())] {
+                ctx.count(1);
+                let r = catch(|| units::convert(1.5, from, to));
+                ctx.outcome("convert-unresolved");
+                if !matches!(r, Ok(Err(_))) {
+                    ctx.violation(Violation {
+                        kind: "unresolved-identifier-converted".into(),
+                        class: "resolve".into(),
+                        input: format!("convert(1.5, {:?}, {:?})", from, to),
+                        expected: "an error (unknown or ambiguous unit)".into(),
+                        observed: format!("{:?}", r.map(|x| x.map_err(|e| e.to_string()))),
+                        case: json!({"op": "resolve", "id": p}),
+                    });
+                }
+            }
+        }
         if !ok {
             ctx.violation(Violation {
                 kind: "resolution".into(),
